@@ -13,10 +13,13 @@ META = {
 }
 
 DEV = "D_ptr_limit_c000"
-PUSHES = {"q": "PushQuestion", "opt": "PushOpt", "A": "PushRecord", "NS": "PushRecord",
-          "MX": "PushRecord", "DN": "PushRecord", "TXT": "PushRecord", "UNK": "PushRecord"}
+DEV_RC = "D_opt_rcode_sticks"
+PUSHES = {"q": "PushQuestion", "opt": "PushOpt", "optrc": "PushOptRcode", "A": "PushRecord",
+          "NS": "PushRecord", "MX": "PushRecord", "DN": "PushRecord", "TXT": "PushRecord",
+          "UNK": "PushRecord"}
 OTHERS = {"goto": "GotoSection", "rewind": "Rewind", "limit": "SetLimit", "clear": "SetLimit",
-          "finish": "Finish"}
+          "finish": "Finish", "hdr": "SetHeader", "start": "StartReply"}
+LAST_PTR = 0x3FFF      # the last offset a compression pointer can express
 
 
 def _split(line):
@@ -35,6 +38,48 @@ def _count_actions(ctx, path, counts):
                 counts[a] = (ok + (st[0] != "err"), tot + 1, err + (st[0] == "err"))
 
 
+def _merge_dev(base, devfile, dev, out):
+    """write the behaviours of `base` to `out`; where the run of the
+    specification with the deviation switched on (devfile) expects something
+    else, the case carries that as dev[<name>].  Returns (written, differing)."""
+    devexp = {}
+    with open(devfile) as f:
+        for line in f:
+            k, e = _split(line.rstrip("\n"))
+            devexp[k] = e
+    n = n_dev = 0
+    with open(base) as f:
+        for line in f:
+            k, e = _split(line.rstrip("\n"))
+            if k not in devexp:
+                continue        # a push at the limit exactly in the deviating run
+            if devexp[k] != e:
+                n_dev += 1
+                out.write('%s,"exp":%s,"dev":{"%s":%s}}\n' % (k, e, dev, devexp[k]))
+            else:
+                out.write(line)
+            n += 1
+    return n, n_dev
+
+
+def _edge_witnesses(path):
+    """behaviours in which octets are cut back to exactly LAST_PTR and a push
+    succeeds right after: (by a failed push, by a rewind / backward conversion)"""
+    a = b = 0
+    with open(path) as f:
+        for line in f:
+            o = json.loads(line)
+            st = o["exp"]["steps"]
+            calls = o["in"]["calls"]
+            for i in range(2, len(st) - 1):
+                if st[i][1] == LAST_PTR and st[i + 1][0] == "ok":
+                    if st[i][0] == "err":
+                        a += 1
+                    elif calls[i]["op"] in ("rewind", "goto") and st[i - 1][1] > LAST_PTR:
+                        b += 1
+    return a, b
+
+
 def _head(src, dst, n):
     with open(src) as f, open(dst, "w") as g:
         for i, line in enumerate(f):
@@ -49,7 +94,6 @@ def run(ctx):
 
 def _run(ctx, thorough):
     ctx.build("replay_builder", "record_builder")
-    dev_open = DEV in ctx.open_devs
     w = ctx.work
 
     # ---- 1. TLC decides the property on the specification; the same runs emit
@@ -79,44 +123,57 @@ def _run(ctx, thorough):
                   simulate=(1500 if thorough else 120), depth=12, cases_to=c_sim, count=False)
     ctx.require_ok(sim, "Gen_MsgBuilder simulation")
 
-    # ---- 3. what today's code does where the deviation applies: the same
-    #         behaviours with Dev = {D_ptr_limit_c000}; merged into the cases
+    # ---- 2b. offsets around 0x3FFF / 0x4000: after answer() and one filler
+    #          record every sequence of section changes, rewinds, a push limit
+    #          and pushes of records whose names share suffixes
+    c_edge = os.path.join(w, "cases-edge.ndjson")
+    mc3 = ctx.tlc("MC_MsgBuilder", "MC_MsgBuilder_edge" + sfx, workers=8, label="mc-edge", coverage=False,
+                  cases_to=c_edge, timeout=3000)
+    ctx.require_ok(mc3, "MC_MsgBuilder edge")
+    by_push, by_rewind = _edge_witnesses(c_edge)
+    if by_push == 0 or by_rewind == 0:
+        raise vlib.ToolError("vacuity: no behaviour cuts back to offset 0x3FFF and pushes again "
+                             "(%d by a failed push, %d by a rewind)" % (by_push, by_rewind))
+
+    # ---- 2c. the header, start_answer / start_error / request_axfr, OPT
+    #          records that set an extended RCODE
+    c_reply = os.path.join(w, "cases-reply.ndjson")
+    mc4 = ctx.tlc("MC_MsgBuilder", "MC_MsgBuilder_reply" + sfx, workers=8, label="mc-reply", coverage=False,
+                  cases_to=c_reply, timeout=3000)
+    ctx.require_ok(mc4, "MC_MsgBuilder reply")
+    devrun2 = ctx.tlc("MC_MsgBuilder", "MC_MsgBuilder_dev_optrc", workers=4, label="mc-deviation-optrc",
+                      coverage=False, expect_violation="HeaderKept", count=False)
+    ctx.require_ok(devrun2, "deviation D_opt_rcode_sticks must break HeaderKept in the model")
+
+    # ---- 3. what today's code does where a deviation applies: the same
+    #         behaviours with the deviation switched on; merged into the cases
     c_bigdev = os.path.join(w, "cases-big-dev.ndjson")
     gdev = ctx.tlc("MC_MsgBuilder", "Gen_MsgBuilder_bigdev" + sfx, workers=8, label="gen-big-dev", coverage=False,
                    cases_to=c_bigdev, count=False, timeout=3000)
     ctx.require_ok(gdev, "Gen_MsgBuilder big with deviation")
-    devexp = {}
-    with open(c_bigdev) as f:
-        for line in f:
-            k, e = _split(line.rstrip("\n"))
-            devexp[k] = e
+    c_replydev = os.path.join(w, "cases-reply-dev.ndjson")
+    gdev2 = ctx.tlc("MC_MsgBuilder", "Gen_MsgBuilder_replydev" + sfx, workers=8, label="gen-reply-dev",
+                    coverage=False, cases_to=c_replydev, count=False, timeout=3000)
+    ctx.require_ok(gdev2, "Gen_MsgBuilder reply with deviation")
     c_all = os.path.join(w, "cases-all.ndjson")
-    n_dev = 0
     n_all = 0
     with open(c_all, "w") as out:
-        for src in (c_small, c_sim):
+        for src in (c_small, c_sim, c_edge):
             with open(src) as f:
                 for line in f:
                     out.write(line)
                     n_all += 1
-        with open(c_big) as f:
-            for line in f:
-                k, e = _split(line.rstrip("\n"))
-                if k not in devexp:
-                    continue        # a push at the limit exactly in the deviating run
-                if devexp[k] != e:
-                    n_dev += 1
-                    out.write('%s,"exp":%s,"dev":{"%s":%s}}\n' % (k, e, DEV, devexp[k]))
-                else:
-                    out.write(line)
-                n_all += 1
+        n, n_dev = _merge_dev(c_big, c_bigdev, DEV, out)
+        n_all += n
+        n, n_dev_rc = _merge_dev(c_reply, c_replydev, DEV_RC, out)
+        n_all += n
     if n_all < 5000:
         raise vlib.ToolError("generator produced too few behaviours (%d)" % n_all)
-    if n_dev == 0:
-        raise vlib.ToolError("no behaviour distinguishes the deviation")
+    if n_dev == 0 or n_dev_rc == 0:
+        raise vlib.ToolError("no behaviour distinguishes a deviation (%d, %d)" % (n_dev, n_dev_rc))
     # action coverage, counted from the behaviours TLC generated
     counts = {}
-    for src in (c_small, c_big, c_sim):
+    for src in (c_small, c_big, c_sim, c_edge, c_reply):
         _count_actions(ctx, src, counts)
     for a in sorted(set(PUSHES.values()) | set(OTHERS.values())):
         ok, tot, err = counts.get(a, (0, 0, 0))
@@ -125,7 +182,10 @@ def _run(ctx, thorough):
                                  % (a, ok, err))
         ctx.coverage_actions[a] = (ok, tot)
     ctx.stage("behaviours", {"small": mc1.ncases, "big": mc2.ncases, "simulated": sim.ncases,
-                             "differ_under_" + DEV: n_dev})
+                             "edge": mc3.ncases, "reply": mc4.ncases,
+                             "edge_cut_to_0x3FFF_by_failed_push": by_push,
+                             "edge_cut_to_0x3FFF_by_rewind": by_rewind,
+                             "differ_under_" + DEV: n_dev, "differ_under_" + DEV_RC: n_dev_rc})
 
     # ---- 4. S->I replay
     head = os.path.join(w, "head.ndjson")
@@ -136,26 +196,30 @@ def _run(ctx, thorough):
 
     # ---- 5. I->S: recorded runs validated by TLC
     plan = [("small", 3 if thorough else 2, 5000 if thorough else 2000),
-            ("large", 4 if thorough else 1, 4000 if thorough else 1500)]
+            ("large", 4 if thorough else 1, 4000 if thorough else 1500),
+            ("edge", 3 if thorough else 1, 4000 if thorough else 1500)]
+    devs_open = [d for d in (DEV, DEV_RC) if d in ctx.open_devs]
+    dev_cfg = {(DEV,): "Trace_MsgBuilder_dev", (DEV_RC,): "Trace_MsgBuilder_dev_optrc",
+               (DEV, DEV_RC): "Trace_MsgBuilder_dev_all"}.get(tuple(devs_open))
     first = True
     for mode, n, events in plan:
         for i in range(n):
             tr = os.path.join(w, "trace-%s-%d.ndjson" % (mode, i))
             rc, out, err, _ = ctx.run_bin(
-                "record_builder", [tr, str(ctx.seed * 1000 + i + (500 if mode == "large" else 0)),
+                "record_builder", [tr, str(ctx.seed * 1000 + i + {"small": 0, "large": 500, "edge": 700}[mode]),
                                    str(events), mode])
             if rc != 0:
                 raise vlib.ToolError("record_builder failed: " + err[-500:])
             ok, res, rej = ctx.validate_trace("Trace_MsgBuilder", "Trace_MsgBuilder", tr,
                                               label="trace-%s-%d" % (mode, i), timeout=2400)
             ctx.traces += 1
-            if not ok and dev_open and mode == "large":
+            if not ok and dev_cfg:
                 # today's code: the run must then be a behaviour of the
-                # specification with the deviation switched on
-                ok2, res2, rej2 = ctx.validate_trace("Trace_MsgBuilder", "Trace_MsgBuilder_dev", tr,
+                # specification with the open deviations switched on
+                ok2, res2, rej2 = ctx.validate_trace("Trace_MsgBuilder", dev_cfg, tr,
                                                      label="trace-%s-%d-dev" % (mode, i), timeout=2400)
                 if ok2:
-                    ctx.known(DEV, rej)
+                    ctx.known(_dev_of(tr, rej, devs_open), rej)
                     ok = True
                 else:
                     rej = rej2
@@ -183,6 +247,15 @@ def _run(ctx, thorough):
     ctx.assume("filler record data is 0x80 octets (TXT strings of 128 x 0x80 or opaque data), an undefined label type, so that a pointer into filler reads as an error in model and code alike")
     ctx.assume("lengths on compressing targets are predicted by the transcription of each compressor; push errors compared as ok/error; a push reaching the limit exactly is not decided")
     ctx.assume("CountOverflow not exercised (needs 65535 pushes)")
+
+
+def _dev_of(trace_path, rej, devs_open):
+    """the deviation a rejected event witnesses: a failed OPT push that set an
+    RCODE is D_opt_rcode_sticks, anything else the pointer limit"""
+    ev = (rej or {}).get("event") or {}
+    if DEV_RC in devs_open and ev.get("ev") == "push" and "rc" in ev and ev.get("res") == "err":
+        return DEV_RC
+    return devs_open[0]
 
 
 def _window(trace_path, rej):
@@ -218,9 +291,11 @@ def replay(ctx, doc):
         p = os.path.join(ctx.work, "one-trace.ndjson")
         vlib.write_ndjson(p, case["trace"])
         ok, res, rej = ctx.validate_trace("Trace_MsgBuilder", "Trace_MsgBuilder", p, label="replay")
-        if not ok and DEV in ctx.open_devs:
-            ok, res, rej = ctx.validate_trace("Trace_MsgBuilder", "Trace_MsgBuilder_dev", p,
-                                              label="replay-dev")
+        devs_open = [d for d in (DEV, DEV_RC) if d in ctx.open_devs]
+        dev_cfg = {(DEV,): "Trace_MsgBuilder_dev", (DEV_RC,): "Trace_MsgBuilder_dev_optrc",
+                   (DEV, DEV_RC): "Trace_MsgBuilder_dev_all"}.get(tuple(devs_open))
+        if not ok and dev_cfg:
+            ok, res, rej = ctx.validate_trace("Trace_MsgBuilder", dev_cfg, p, label="replay-dev")
         if not ok:
             ctx.violation("recorded builder run is not a behaviour of MsgBuilder.tla",
                           {"rejection": rej, "trace": case["trace"]})
@@ -230,6 +305,11 @@ def replay(ctx, doc):
 
 
 def explain(ctx, dev):
+    if dev == DEV_RC:
+        res = ctx.tlc("MC_MsgBuilder", "MC_MsgBuilder_dev_optrc", workers=4, label="explain",
+                      coverage=False, expect_violation="HeaderKept", count=False)
+        print(open(res.log).read())
+        return
     if dev != DEV:
         raise vlib.ToolError("unknown deviation " + dev)
     res = ctx.tlc("MC_MsgBuilder", "MC_MsgBuilder_dev", workers=4, label="explain",
